@@ -257,6 +257,14 @@ QUERIES = {
     'getitem': ('PauliList', [], lambda M, s, a: s[0]),
     'diagonalize_pauli': ('Pauli', [], lambda M, s, a: M.ci.diagonalize(s)),
     'stabilizer_state': (None, ['PauliListC'], lambda M, s, a: M.st.stabilizer_state(a[0])),
+    # objects constructed FROM an operator own their data (no memory shared with the argument)
+    'rotation_gate': (None, ['PauliGnz'], lambda M, s, a: M.ci.clifford_rotation_gate(a[0])),
+    'rotation_map': (None, ['PauliGnz'], lambda M, s, a: M.st.clifford_rotation_map(a[0])),
+    'as_polynomial_pauli': ('Pauli', [], lambda M, s, a: s.as_polynomial()),
+    'as_list_weight': ('Pauli', [], lambda M, s, a: s.weight()),
+    'list_weight': ('PauliList', [], lambda M, s, a: s.weight()),
+    'row_weight': ('PauliList', [], lambda M, s, a: s[0].weight()),
+    'neg_weight': ('Pauli', [], lambda M, s, a: (-s).weight()),
     # in-place operations: the receiver changes, the arguments must not
     'rotate_by': ('StabilizerState1', ['PauliG'], lambda M, s, a: s.rotate_by(a[0])),
     'transform_by': ('PauliList', ['CliffordMap'], lambda M, s, a: s.transform_by(a[0])),
@@ -292,6 +300,10 @@ def _arg(env, M, N, kind, tag):
         return M.pa.PauliList(g, env.signs(tag + 'sign', (L,)))
     if kind == 'PauliG':
         return M.pa.Pauli(env.bits(tag + 'g', (2 * N,)), env.signs(tag + 'sign', (1,))[0])
+    if kind == 'PauliGnz':
+        g = env.bits(tag + 'g', (2 * N,))
+        env.assume(b_not(arr_eq(g, [0] * (2 * N))), 'generator is not the identity')
+        return M.pa.Pauli(g, env.signs(tag + 'sign', (1,))[0])
     return make_object(env, M, N, kind, tag)
 
 
@@ -310,7 +322,7 @@ def h_query(env, N, name):
     for i, a in enumerate(args):
         env.goal('argument%d_unchanged' % i, unchanged(snap_a[i], fields(a) if not plain(a) else snapshot(a)))
     # results of queries share no memory with receiver / arguments (a later write to the result must not leak back)
-    if res.value is not None and name not in INPLACE and name not in ('stabilizers', 'getitem', 'neg', 'rmul', 'as_polynomial'):
+    if res.value is not None and name not in INPLACE and name not in ('stabilizers', 'getitem', 'neg', 'rmul', 'as_polynomial', 'as_polynomial_pauli'):
         parties = ([recv] if recv is not None else []) + [a for a in args if not isinstance(a, list)]
         env.goal('result_shares_no_memory', all(shares_nothing_arrays(res.value, p) for p in parties))
 
